@@ -381,9 +381,10 @@ fn c17(args: &[String]) {
     let img = std::fs::read(&args[0]).expect("image");
     let sub = args[1] == "sub";
     let thorough = args[2] == "thorough";
+    let subset = args[2] == "trace-subset";
     let nthreads: usize = std::thread::available_parallelism().map_or(4, |n| n.get());
     // work list: (family tag, k, orders, attrs, count)
-    let mut fams: Vec<(usize, &'static [u8], &'static [u8], u64)> = vec![(1, &ORDERS_FULL, &ATTRS, 0), (2, &ORDERS_FULL, &ATTRS, 0)];
+    let mut fams: Vec<(usize, &'static [u8], &'static [u8], u64)> = if subset { vec![(1, &ORDERS_FULL, &ATTRS, 0)] } else { vec![(1, &ORDERS_FULL, &ATTRS, 0), (2, &ORDERS_FULL, &ATTRS, 0)] };
     if thorough {
         fams.push((3, &ORDERS_SMALL, &ATTRS[..1], 0));
     }
@@ -425,7 +426,7 @@ fn c17(args: &[String]) {
                     }
                 }
                 // family 6: every sequence of slot kinds (reader state machine)
-                for len in 1..=(if thorough { 7usize } else { 5 }) {
+                for len in 1..=(if thorough { 7usize } else if subset { 3 } else { 5 }) {
                     let count = family6_count(len);
                     let mut idx = t as u64;
                     while idx < count {
@@ -799,7 +800,16 @@ static SINK: SinkLogger = SinkLogger;
 fn main() {
     // the library's log macros are compiled in (default log level): evaluate their arguments like a real logger would
     let _ = log::set_logger(&SINK);
-    log::set_max_level(log::LevelFilter::Trace);
+    // level: everything up to `debug` (error!/warn!/info!/debug! arguments are evaluated) in the big enumerations; the
+    // `trace-subset` pass of C17 re-runs the small case families with `trace` as well (formatting every trace record of
+    // every directory slot is six times slower than the enumeration itself)
+    let trace = std::env::args().any(|a| a == "trace-subset");
+    log::set_max_level(match std::env::var("FEATDRV_LOG").as_deref() {
+        Ok("off") => log::LevelFilter::Off,
+        Ok("trace") => log::LevelFilter::Trace,
+        _ if trace => log::LevelFilter::Trace,
+        _ => log::LevelFilter::Debug,
+    });
     let args: Vec<String> = std::env::args().collect();
     match args.get(1).map(String::as_str) {
         Some("c17") => c17(&args[2..]),
